@@ -15,7 +15,7 @@ class Contract:
     def __init__(self, qual, kind='function', params=None, returns='none', requires=(), ensures=(), raises=(),
                  loops=None, inline=(), theories=(), refines=None, modifies=(), yields=None, decreases=None,
                  props=(), eq_on_ref=None, setter=False, closure_of=None, free=None, trusted=False, note='',
-                 exc_ensures=None, ghost_out=None, fresh_result=False, globals_=None):
+                 exc_ensures=None, ghost_out=None, fresh_result=False, globals_=None, replay=None):
         self.qual = qual
         self.kind = kind              # function | method | property | generator
         self.params = dict(params or {})
@@ -40,6 +40,7 @@ class Contract:
         self.exc_ensures = dict(exc_ensures or {})
         self.fresh_result = fresh_result
         self.globals_ = dict(globals_ or {})
+        self.replay = replay          # dict(observe={name: spec expr over the entry state}, script=python template)
         self._parsed = {}
 
     def parse(self, text):
